@@ -729,6 +729,9 @@ class file_archive(archive):
                 filename = 'memo.json' if type(protocol) is str else 'memo.pkl'
             else: filename = 'memo.py'
         elif not serialized and not filename.endswith(('.py','.pyc','.pyo','.pyd')): filename = filename+'.py'
+        # resolve a relative name once (as dir_archive does), so that the archive
+        # and its copies, pickles and state keep addressing the same file
+        filename = os.path.abspath(filename)
         # set state
         self.__state__ = {
             'id': filename,
